@@ -32,8 +32,14 @@ PolyWhy(R) ==
   ELSE IF Len(R.leftovers) > 0 THEN "polyglot creation left files behind: " \o R.leftovers[1]
   ELSE IF R.outcome = "made" /\ ~(SeqSet(R.expected) \subseteq SeqSet(R.out_formats)) THEN "the polyglot is not identified as each combined format"
   ELSE "ok"
+\* recursive property discovery (looks inside archives): read-only, deterministic, nothing left behind - anywhere
+RecurWhy(R) ==
+  IF ~R.deterministic THEN "recursive property discovery is not deterministic"
+  ELSE IF ~R.same_bytes THEN "recursive property discovery modified the file"
+  ELSE IF ~R.same_listing THEN "recursive property discovery left files behind (outside its temporary directory)"
+  ELSE "ok"
 Judge == /\ ~done /\ done' = TRUE /\ UNCHANGED tid
-         /\ verdict' = IF T[tid].kind = "cell" THEN CellWhy(T[tid]) ELSE PolyWhy(T[tid])
+         /\ verdict' = IF T[tid].kind = "cell" THEN CellWhy(T[tid]) ELSE IF T[tid].kind = "recur" THEN RecurWhy(T[tid]) ELSE PolyWhy(T[tid])
 TSpec == Init /\ [][Judge]_vars
 Report == done => PrintT(<<"VERDICT", T[tid].id, ToJson([v |-> verdict])>>)
 =============================================================================
